@@ -28,12 +28,26 @@ def parse_all(data, phys):
     res["r.flat"] = [norm_item(i) for i in pj.rdf_parse(data, entry="flat")]
     res["r.grouped"] = [norm_item(i) for i in pj.rdf_parse(data, entry="grouped")]
     res["r.to_graph"] = [norm_item(i) for i in pj.rdf_parse(data, entry="to_graph")]
+    res["lock.g"], res["lock.r"] = lockstep(data)
     return res
+
+
+def lockstep(data):
+    """both integrations' flat parsers consumed alternately, item by item, on the same bytes"""
+    import io
+    from pyjelly.integrations.generic import parse as gp
+    from pyjelly.integrations.rdflib import parse as rp
+    a, b = [], []
+    for x, y in zip(gp.parse_jelly_flat(io.BytesIO(data)), rp.parse_jelly_flat(io.BytesIO(data))):
+        a.append(norm_item(pj.terms.item_from_generic(x)))
+        b.append(norm_item(pj.terms.item_from_rdflib(y)))
+    return a, b
 
 
 def agree(res):
     base = res["g.flat"]
     ok = res["g.grouped"] == base and res["g.to_graph"] == base and res["r.flat"] == base
+    ok = ok and res["lock.g"] == base and res["lock.r"] == base
     s = sorted(map(repr, set(base)))
     # rdflib stores are sets: compare as sets; grouped = union over the per-frame datasets
     ok = ok and sorted(map(repr, set(res["r.grouped"]))) == s and sorted(map(repr, set(res["r.to_graph"]))) == s
